@@ -490,7 +490,13 @@ TRUSTED_BASE = [
 # the translated blend code (tools/rs2coq.py): regenerate from /repo, re-prove the tie
 # --------------------------------------------------------------------------
 GEN_DIR = os.path.join(BUILD, "gen")
-GEN_PROOFS = ["BlendGenBase.v", "BlendGenEq.v", "BlendGenProps.v"]
+# static proof files about the generated text, in dependency order; what each property's check needs
+GEN_CHAIN = {
+    # C17 does not depend on what the colour functions compute (BlendGenStruct.v), except for the guarded HSL range statements
+    "C17": ["BlendGenBase.v", "BlendGenTotal.v", "BlendGenStruct.v", "BlendGenEqHsl.v", "BlendGenPropsC17.v"],
+    "C03": ["BlendGenBase.v", "BlendGenTotal.v", "BlendGenStruct.v", "BlendGenEqHsl.v", "BlendGenEq.v", "BlendGenPropsC03.v"],
+}
+GEN_ALL = ["BlendGenBase.v", "BlendGenTotal.v", "BlendGenStruct.v", "BlendGenEqHsl.v", "BlendGenEq.v", "BlendGenPropsC17.v", "BlendGenPropsC03.v"]
 
 
 def _enclosing_lemma(vfile: str, line: int) -> str:
@@ -499,7 +505,7 @@ def _enclosing_lemma(vfile: str, line: int) -> str:
         for ln, l in enumerate(open(vfile), 1):
             if ln > line:
                 break
-            m = re.match(r"\s*(?:Lemma|Theorem|Definition|Ltac)\s+(\w+)", l)
+            m = re.match(r"\s*(?:Lemma|Theorem|Definition|Ltac|Example)\s+(\w+)", l)
             if m:
                 name = m.group(1)
     except OSError:
@@ -507,92 +513,110 @@ def _enclosing_lemma(vfile: str, line: int) -> str:
     return name
 
 
-def gen_blend_obligations() -> Obligations:
-    """Translate /repo/src/blend.rs (+ the two dispatch tables) to Gallina, compile the result and the static proof
-    files that tie it to Model/Blend.v and restate C03 / C17 for the generated functions.  The Coq compilation of
-    one (generated text, proof sources, development) triple is cached by content hash; the translation itself runs
-    on every call."""
+def gen_blend_obligations(prop: str = "C03") -> Obligations:
+    """Translate /repo/src/blend.rs (+ the two dispatch tables) to Gallina (tools/rs2coq.py, on every call), then compile the
+    result and the static proof files of GEN_CHAIN[prop] that tie it to Model/Blend.v and restate the property's theorems for
+    the generated functions.  Compiled files are kept in a directory named by the content hash of (generated text, proof
+    sources, every .v of the development), so an unchanged blend.rs costs a fraction of a second."""
     import hashlib
     ob = Obligations()
     t0 = time.time()
-    ob.checker_cmd = ("python3 tools/rs2coq.py /repo/src BlendGen.v && coqc -Q /verif/coq Ase -Q . AseGen BlendGen.v "
-                      "BlendGenBase.v BlendGenEq.v BlendGenProps.v (Print Assumptions; compilation cached by content hash)")
+    chain = GEN_CHAIN[prop]
+    ob.checker_cmd = ("python3 tools/rs2coq.py /repo/src BlendGen.v && coqc -Q /verif/coq Ase -Q . AseGen BlendGen.v %s "
+                      "(Print Assumptions; compiled files cached by content hash)" % " ".join(chain))
     try:
         build_model()
     except BuildError as e:
         ob.errors.append(str(e))
         return ob
     os.makedirs(GEN_DIR, exist_ok=True)
-    with tempfile.TemporaryDirectory(prefix="gen_", dir=GEN_DIR) as td:
+    props_file = chain[-1]
+    src = strip_comments(open(os.path.join(COQ, "Gen", props_file)).read())
+    ob.theorems = re.findall(r"(?:Theorem|Lemma)\s+(\w+)\s*:", src)
+    with tempfile.TemporaryDirectory(prefix="tr_", dir=GEN_DIR) as td:
         out = os.path.join(td, "BlendGen.v")
         r = subprocess.run([sys.executable, os.path.join(VERIF, "tools", "rs2coq.py"), os.path.join(REPO, "src"), out],
                            stdout=subprocess.PIPE, stderr=subprocess.STDOUT, text=True, timeout=120)
         if r.returncode != 0 or not os.path.exists(out):
-            ob.errors.append("GEN_tie: src/blend.rs is outside the subset tools/rs2coq.py translates (%s); the generated-code "
+            ob.errors.append("GEN (all generated-code theorems): src/blend.rs is outside the subset tools/rs2coq.py translates (%s); the "
                              "theorems cannot be re-checked against the current source" % r.stdout.strip()[-400:])
-            ob.theorems = ["GEN_tie"]
             ob.wall = time.time() - t0
             return ob
         gen_text = open(out).read()
-        h = hashlib.sha256(gen_text.encode())
-        for fn in GEN_PROOFS:
-            h.update(open(os.path.join(COQ, "Gen", fn), "rb").read())
-        for root, _d, files in sorted(os.walk(COQ)):
-            for fn in sorted(files):
-                if fn.endswith(".v"):
-                    h.update(open(os.path.join(root, fn), "rb").read())
-        key = h.hexdigest()[:24]
-        cache = os.path.join(GEN_DIR, "cache_" + key + ".json")
-        with Lock("gen.lock"):
-            if os.path.exists(cache):
-                c = json.load(open(cache))
-                ob.theorems, ob.assumptions, ob.errors = c["theorems"], c["assumptions"], c["errors"]
-                ob.wall = time.time() - t0
-                ob.checker_cmd += " [cache hit %s]" % key
-                return ob
-            for fn in GEN_PROOFS:
-                shutil.copyfile(os.path.join(COQ, "Gen", fn), os.path.join(td, fn))
-            log_all = ""
-            for fn in ["BlendGen.v"] + GEN_PROOFS:
-                try:
-                    r = subprocess.run(["coqc", "-Q", COQ, "Ase", "-Q", td, "AseGen", "-w", "-all", os.path.join(td, fn)],
-                                       stdout=subprocess.PIPE, stderr=subprocess.STDOUT, text=True, timeout=1500, cwd=td)
-                    rc, text = r.returncode, r.stdout
-                except subprocess.TimeoutExpired:
-                    rc, text = 124, "coqc timed out"
-                if rc != 0:
-                    m = re.search(r'line (\d+)', text)
-                    where = _enclosing_lemma(os.path.join(td, fn), int(m.group(1))) if m else "?"
-                    ob.errors.append("generated-code obligation %s in %s no longer checks: %s" % (where, fn, text.strip()[-600:]))
-                    break
-                log_all = text
-            src = strip_comments(open(os.path.join(COQ, "Gen", "BlendGenProps.v")).read())
-            ob.theorems = re.findall(r"(?:Theorem|Lemma)\s+(\w+)\s*:", src)
-            if not ob.errors:
-                order = re.findall(r"Print\s+Assumptions\s+(\w+)\s*\.", src)
-                blocks = [b for b in re.split(r"(?m)^(?=Closed under the global context|Axioms:)", log_all)
-                          if b.startswith("Closed under") or b.startswith("Axioms:")]
-                if len(blocks) != len(order) or set(order) != set(ob.theorems):
-                    ob.errors.append("could not match Print Assumptions output of BlendGenProps.v")
-                for name, b in zip(order, blocks):
-                    ax = [] if b.startswith("Closed under") else re.findall(r"(?m)^([A-Za-z_][\w.']*)\s*:", b[len("Axioms:"):])
-                    ob.assumptions[name] = ax
-                    for a in ax:
-                        if not a.startswith(ALLOWED_AXIOM_PREFIXES):
-                            ob.errors.append("theorem %s depends on axiom %s" % (name, a))
-                body = re.sub(r"(Theorem|Lemma)\s+\w+\s*:.*?\.\s*Proof\.\s*exact\s+[^.]*(\.[A-Za-z_][\w.']*)*\s*\.\s*Qed\.", "", src, flags=re.S)
-                body = re.sub(r"(From\s+\S+\s+)?Require\s+(Import\s+|Export\s+)?([A-Za-z_][\w.]*\s+)*[A-Za-z_][\w.]*?\.(?=\s|$)", "", body)
-                body = re.sub(r"Print\s+Assumptions\s+\w+\s*\.", "", body)
-                if body.strip():
-                    ob.errors.append("Gen/BlendGenProps.v contains something other than theorems closed by exact: %r" % body.strip()[:200])
-            bad = grep_forbidden()
-            if bad:
-                ob.errors.append("forbidden constructs: " + "; ".join(bad[:10]))
-            tmp = cache + ".tmp%d" % os.getpid()
-            json.dump({"theorems": ob.theorems, "assumptions": ob.assumptions, "errors": ob.errors}, open(tmp, "w"))
-            os.replace(tmp, cache)
-            # keep the last generated text for inspection
-            shutil.copyfile(out, os.path.join(GEN_DIR, "BlendGen.last.v"))
+    h = hashlib.sha256(gen_text.encode())
+    for fn in GEN_ALL:
+        h.update(open(os.path.join(COQ, "Gen", fn), "rb").read())
+    for root, _d, files in sorted(os.walk(COQ)):
+        for fn in sorted(files):
+            if fn.endswith(".v"):
+                h.update(open(os.path.join(root, fn), "rb").read())
+    key = h.hexdigest()[:24]
+    wd = os.path.join(GEN_DIR, "k_" + key)
+    with Lock("gen.lock"):
+        os.makedirs(wd, exist_ok=True)
+        # keep the three most recent work directories
+        olds = sorted((d for d in os.listdir(GEN_DIR) if d.startswith("k_") and d != "k_" + key),
+                      key=lambda d: os.path.getmtime(os.path.join(GEN_DIR, d)))
+        for d in olds[:-3]:
+            shutil.rmtree(os.path.join(GEN_DIR, d), ignore_errors=True)
+        with open(os.path.join(wd, "BlendGen.v"), "w") as f:
+            f.write(gen_text)
+        shutil.copyfile(os.path.join(wd, "BlendGen.v"), os.path.join(GEN_DIR, "BlendGen.last.v"))
+        res_file = os.path.join(wd, props_file + ".json")
+        if os.path.exists(res_file):
+            c = json.load(open(res_file))
+            ob.assumptions, ob.errors = c["assumptions"], c["errors"]
+            ob.wall = time.time() - t0
+            ob.checker_cmd += " [cache hit %s]" % key
+            return ob
+        log_all = ""
+        for fn in ["BlendGen.v"] + chain:
+            vo = os.path.join(wd, fn[:-2] + ".vo")
+            failed = os.path.join(wd, fn + ".failed")
+            if fn != "BlendGen.v":
+                shutil.copyfile(os.path.join(COQ, "Gen", fn), os.path.join(wd, fn))
+            if os.path.exists(vo) and fn != props_file:
+                continue
+            if os.path.exists(failed):
+                ob.errors.append(open(failed).read())
+                break
+            try:
+                r = subprocess.run(["coqc", "-Q", COQ, "Ase", "-Q", wd, "AseGen", "-w", "-all", os.path.join(wd, fn)],
+                                   stdout=subprocess.PIPE, stderr=subprocess.STDOUT, text=True, timeout=1500, cwd=wd)
+                rc, text = r.returncode, r.stdout
+            except subprocess.TimeoutExpired:
+                rc, text = 124, "coqc timed out"
+            if rc != 0:
+                m = re.search(r'line (\d+)', text)
+                where = _enclosing_lemma(os.path.join(wd, fn), int(m.group(1))) if m else "?"
+                msg = "generated-code obligation %s in Gen/%s no longer checks: %s" % (where, fn, text.strip()[-600:])
+                ob.errors.append(msg)
+                open(failed, "w").write(msg)
+                break
+            log_all = text
+        if not ob.errors:
+            order = re.findall(r"Print\s+Assumptions\s+(\w+)\s*\.", src)
+            blocks = [b for b in re.split(r"(?m)^(?=Closed under the global context|Axioms:)", log_all)
+                      if b.startswith("Closed under") or b.startswith("Axioms:")]
+            if len(blocks) != len(order) or set(order) != set(ob.theorems):
+                ob.errors.append("could not match Print Assumptions output of Gen/%s" % props_file)
+            for name, b in zip(order, blocks):
+                ax = [] if b.startswith("Closed under") else re.findall(r"(?m)^([A-Za-z_][\w.']*)\s*:", b[len("Axioms:"):])
+                ob.assumptions[name] = ax
+                for a in ax:
+                    if not a.startswith(ALLOWED_AXIOM_PREFIXES):
+                        ob.errors.append("theorem %s depends on axiom %s" % (name, a))
+            body = re.sub(r"(Theorem|Lemma)\s+\w+\s*:.*?\.\s*Proof\.\s*exact\s+[^.]*(\.[A-Za-z_][\w.']*)*\s*\.\s*Qed\.", "", src, flags=re.S)
+            body = re.sub(r"(From\s+\S+\s+)?Require\s+(Import\s+|Export\s+)?([A-Za-z_][\w.]*\s+)*[A-Za-z_][\w.]*?\.(?=\s|$)", "", body)
+            body = re.sub(r"Print\s+Assumptions\s+\w+\s*\.", "", body)
+            if body.strip():
+                ob.errors.append("Gen/%s contains something other than theorems closed by exact: %r" % (props_file, body.strip()[:200]))
+        bad = grep_forbidden()
+        if bad:
+            ob.errors.append("forbidden constructs: " + "; ".join(bad[:10]))
+        tmp = res_file + ".tmp%d" % os.getpid()
+        json.dump({"assumptions": ob.assumptions, "errors": ob.errors}, open(tmp, "w"))
+        os.replace(tmp, res_file)
     ob.wall = time.time() - t0
     return ob
 
